@@ -6,6 +6,7 @@ import Driver.FloatScalar
 import GwbVerif.Model.Parse.Json
 import GwbVerif.Model.Apps.Grid
 import GwbVerif.Model.Apps.Dat
+import GwbVerif.Model.Apps.GridMesh
 open Gwb Lean
 
 /-- the text gwb-dat prints for a column name -/
@@ -157,6 +158,28 @@ partial def loop (decl : Json) (version : String) (stdin : IO.FS.Stream) (worlds
         IO.println (fmtOut [1.0 / 0.0, nan, 0.0, nan, nan, nan, nan]); loop decl version stdin worlds
       | .error e => IO.println s!"err {e}"; loop decl version stdin worlds
     | _, _ => IO.println "err bad-args"; loop decl version stdin worlds
+  | "grid" :: gtype :: dim :: nx :: ny :: nz :: bounds =>
+    -- grid <cartesian|chunk|annulus> <dim> <nx> <ny> <nz> <xmin xmax ymin ymax zmin zmax as hex>   (angles in degrees, as in the grid file)
+    match dim.toNat?, nx.toNat?, ny.toNat?, nz.toNat?, bounds.mapM unhex with
+    | some dim, some nx, some ny, some nz, some [xmin, xmax, ymin, ymax, zmin, zmax] =>
+      let d2r (a : Float) : Float := degToRad a
+      let mesh : Option (GridMesh Float) :=
+        if gtype == "cartesian" then
+          (if dim == 2 then some (cartesianGrid2 xmin xmax zmin zmax nx nz) else some (cartesianGrid3 xmin xmax ymin ymax zmin zmax nx ny nz))
+        else if gtype == "chunk" then
+          (if dim == 2 then some (chunkGrid2 (d2r xmin) (d2r xmax) zmin zmax nx nz) else some (chunkGrid3 (d2r xmin) (d2r xmax) (d2r ymin) (d2r ymax) zmin zmax nx ny nz))
+        else if gtype == "annulus" then
+          let nt := (annulusQuotient zmin zmax nz).toUInt64.toNat
+          some (annulusGrid2 zmin zmax nt nz)
+        else none
+      match mesh with
+      | some m =>
+        let pts := vtkPoints dim m.nodes
+        let conn := vtkConnectivity m.cells
+        IO.println s!"ok {m.nP} {m.nCell} |{String.join (pts.map (fun v => " " ++ hex v))} |{String.join (m.nodes.map (fun n => " " ++ hex n.depth))} |{String.join (conn.map (fun c => s!" {c}"))}"
+        loop decl version stdin worlds
+      | none => IO.println "err unsupported"; loop decl version stdin worlds
+    | _, _, _, _, _ => IO.println "err bad-args"; loop decl version stdin worlds
   | ["parfor", a, b, c] =>
     match a.toNat?, b.toNat?, c.toNat? with
     | some start, some stop, some pool =>
